@@ -36,7 +36,7 @@ for name in sorted(expect):
 out.append('')
 out.append('M08b, M10 and M23 are the reverted repairs of D1, D2 and D3. M23b removes the pop hook as well and M27 makes a poll spin forever: both are caught by the watchdogs of §7. An earlier candidate (rank relaxation visiting each child once) was dropped because the pinned suite itself catches it; removing the empty-graph release in the *fold* family is an equivalent mutant (the sender is owned by the scheduler and dropped when it ends).\n')
 out.append('### 8.2 Property-preserving changes (`mutants/B*.patch`) — no check may raise an alarm\n')
-out.append('B01–B07 were written here (internal event order, queue order, capacities, equivalent algorithms). B11–B16 and B21–B29 are substantial refactorings, and B31–B36 deliberate changes of behaviour that no property pins down (hand-out order among simultaneously ready functions, tie-breaks of the sequential walks, order of the returned errors and no further starts after a failure, wake-up / batching / lazy preload behaviour, storage order of Data edges, fewer starts and earlier return after a failure), written by sub-agents that were asked for a non-trivial but strictly behaviour-preserving change in one area each (queuer/scheduler plumbing with `recv_many` and an atomic counter; `stream_internal` on a `VecDeque`; the augmenter on reachability bit sets; a topological-pass rank computation; error collection in a mutex; an own topological walker for all sequential iterators; the second batch is described at the end of the history in §8.3) and that validated them differentially against the original; their READMEs are next to the patches. All 19 checks (quick tier) exit 0 on every one of them. After the inside-poll dimensions of §2.6 and the mixed-form histories of C16 had been added (session 5) there was no time for the full matrix again (about 6 minutes per change): B01–B36 were re-run against C08 with the first version of the mid-poll oracle, and the nine large refactorings B21–B29 — among them the hand-written `FuturesUnordered` loop, the fold paths as plain loops and the hand-written ready stream, the ones most likely to dequeue or wake differently — against C04, C08 and C20 with the final harness: no alarm. The remaining (change, check) cells of the table are from the harness as it was before those additions.\n')
+out.append('B01–B07 were written here (internal event order, queue order, capacities, equivalent algorithms). B11–B16 and B21–B29 are substantial refactorings, and B31–B36 deliberate changes of behaviour that no property pins down (hand-out order among simultaneously ready functions, tie-breaks of the sequential walks, order of the returned errors and no further starts after a failure, wake-up / batching / lazy preload behaviour, storage order of Data edges, fewer starts and earlier return after a failure), written by sub-agents that were asked for a non-trivial but strictly behaviour-preserving change in one area each (queuer/scheduler plumbing with `recv_many` and an atomic counter; `stream_internal` on a `VecDeque`; the augmenter on reachability bit sets; a topological-pass rank computation; error collection in a mutex; an own topological walker for all sequential iterators; the second batch is described at the end of the history in §8.3) and that validated them differentially against the original; their READMEs are next to the patches. All 19 checks (quick tier) exit 0 on every one of them. After the inside-poll dimensions of §2.6 and the mixed-form histories of C16 had been added (session 5) there was no time for the full matrix again (about 6 minutes per change): B01–B36 were re-run against C08 with the first version of the mid-poll oracle, and the nine large refactorings B21–B29 and the six changes of unspecified behaviour B31–B36 — among them the hand-written `FuturesUnordered` loop, the fold paths as plain loops and the hand-written ready stream, the ones most likely to dequeue or wake differently — against C04, C08 and C20 with the final harness: no alarm. The remaining (change, check) cells of the table are from the harness as it was before those additions.\n')
 out.append('| change | files | result |')
 out.append('|---|---|---|')
 for name in sorted(expect):
